@@ -84,7 +84,13 @@ fn entry(d: usize, which: u8) -> SignedEntry {
     if is_raw(d) {
         let (h, l) = val.hash_len();
         let mut id = doc_id(d).to_bytes().to_vec();
-        id.extend_from_slice(author_id(0).as_bytes());
+        // the second entry of a neighbour-id document is authored by the all-0xFF author id (the
+        // last key of every per-author range), the first by an ordinary one
+        if which == 0 {
+            id.extend_from_slice(author_id(0).as_bytes());
+        } else {
+            id.extend_from_slice(&[0xffu8; 32]);
+        }
         id.extend_from_slice(key);
         RawSigned {
             author_sig: [d as u8 + 1; 64],
